@@ -57,6 +57,33 @@ type Mutation struct {
 	Old    string
 	New    string
 	Expect string // substring expected in some failing obligation key (rule|construct)
+	Also   []Edit // further edits of the same mutation (same or other files)
+}
+
+// Edit is one exact, unique text replacement.
+type Edit struct {
+	File, Old, New string
+}
+
+// overlayFor applies the mutation's edits in memory. Every anchor must occur exactly once.
+func overlayFor(repo string, m Mutation) (map[string][]byte, string) {
+	ov := map[string][]byte{}
+	for _, e := range append([]Edit{{m.File, m.Old, m.New}}, m.Also...) {
+		path := filepath.Join(repo, e.File)
+		src, have := ov[path]
+		if !have {
+			b, err := os.ReadFile(path)
+			if err != nil {
+				return nil, err.Error()
+			}
+			src = b
+		}
+		if n := strings.Count(string(src), e.Old); n != 1 {
+			return nil, fmt.Sprintf("anchor occurs %d times in %s", n, e.File)
+		}
+		ov[path] = []byte(strings.Replace(string(src), e.Old, e.New, 1))
+	}
+	return ov, ""
 }
 
 var mutations = map[string][]Mutation{}
@@ -66,14 +93,12 @@ func selfTestResults(prop string, fn checkFn, repo, verif string) []map[string]s
 	var out []map[string]string
 	for _, m := range mutations[prop] {
 		rec := map[string]string{"mutation": m.Name, "file": m.File, "expected_rule_construct": m.Expect}
-		path := filepath.Join(repo, m.File)
-		b, err := os.ReadFile(path)
-		if err != nil || strings.Count(string(b), m.Old) != 1 {
-			rec["result"] = "skipped (anchor text not found exactly once in the current tree)"
+		ov, why := overlayFor(repo, m)
+		if ov == nil {
+			rec["result"] = "skipped (" + why + ")"
 			out = append(out, rec)
 			continue
 		}
-		ov := map[string][]byte{path: []byte(strings.Replace(string(b), m.Old, m.New, 1))}
 		res := runCheck(prop, "quick", repo, verif, ov, fn, true)
 		rec["result"] = "missed"
 		for _, o := range res.run.newFailures() {
@@ -98,18 +123,12 @@ func runSelfTest(prop string, fn checkFn, repo, verif string) int {
 	}
 	failed := 0
 	for _, m := range muts {
-		path := filepath.Join(repo, m.File)
-		b, err := os.ReadFile(path)
-		if err != nil {
-			fmt.Printf("selftest %s/%s: SKIP (%v)\n", prop, m.Name, err)
+		ov, why := overlayFor(repo, m)
+		if ov == nil {
+			fmt.Printf("selftest %s/%s: SKIP (%s)\n", prop, m.Name, why)
+			failed++
 			continue
 		}
-		src := string(b)
-		if strings.Count(src, m.Old) != 1 {
-			fmt.Printf("selftest %s/%s: SKIP (anchor occurs %d times)\n", prop, m.Name, strings.Count(src, m.Old))
-			continue
-		}
-		ov := map[string][]byte{path: []byte(strings.Replace(src, m.Old, m.New, 1))}
 		res := runCheck(prop, "quick", repo, verif, ov, fn, true)
 		hit := false
 		var keys []string
